@@ -84,6 +84,9 @@ pub struct Part {
     /// ours: write call sizes (default one write)
     #[serde(default)]
     pub writes: Vec<usize>,
+    /// forge: LZMA2 payload made of uncompressed chunks of this many bytes (0 = reference encoder output)
+    #[serde(default)]
+    pub piece: usize,
 }
 
 #[derive(Deserialize, Clone, Debug)]
@@ -558,7 +561,8 @@ fn run_read(s: &Scn) -> Value {
                 let data = gen::data(if p.class.is_empty() { "text" } else { &p.class }, p.n, p.seed ^ s.seed.rotate_left(7));
                 let r = match p.src.as_str() {
                     "ref" => ref_stream(k, p, &data),
-                    "forge" => crate::forge::xz_stream(&data, &p.cuts, &ref_cfg(&p.opt), p.hc, p.hu),
+                    "forge" if k == "lzma2" => Ok(crate::forge::lzma2_unc(&data, if p.piece == 0 { 65536 } else { p.piece })),
+                    "forge" => crate::forge::xz_stream(&data, &p.cuts, &ref_cfg(&p.opt), p.hc, p.hu, p.piece),
                     _ => ours_stream(k, p, &data),
                 };
                 match r {
